@@ -40,6 +40,8 @@ type Ind struct {
 	Range func(cfg []float64, in [][]float64, pos int, out []float64) string
 	// RangeKnown classifies a Range violation as a known finding (returns its key or "").
 	RangeKnown func(cfg []float64, in [][]float64, pos int, out []float64) string
+	// ScaleKnown classifies a homogeneity violation as a known finding (returns its key or "").
+	ScaleKnown func(cfg []float64, volume bool) string
 	// Note documents reading choices (where the doc comment is shorthand).
 	Note string
 }
